@@ -263,6 +263,18 @@ void Kernel::WriteFile(const std::string& p, const std::string& data, bool exter
   }
 }
 
+// write-to-temporary-and-rename: the path gets a NEW inode; descriptors that are open on
+// the old one keep writing into a file nobody can see any more
+void Kernel::ReplaceFile(const std::string& p, const std::string& data) {
+  std::string a = Abs(p);
+  MkdirP(DirOf(a));
+  InodeP n = std::make_shared<Inode>();
+  n->kind = Inode::kFile;
+  n->data = data;
+  n->mtime = Stamp(false);
+  fs.nodes[a] = n;
+}
+
 void Kernel::Touch(const std::string& p, bool external_edit) {
   std::string d;
   ReadFile(p, &d);
